@@ -174,6 +174,8 @@ func encodeHTTP(v *wireVec) (*wireCase, error) {
 		c.cfg = []map[string]any{{"method": []string{"POST"}}}
 	case "header":
 		c.cfg = []map[string]any{{"header": map[string][]string{"X-Test": {"*"}}}}
+	case "tenant":
+		c.cfg = []map[string]any{{"header": map[string][]string{"X-Tenant": {"alpha"}}}}
 	}
 	return c, nil
 }
